@@ -136,3 +136,8 @@ MUTANTS += [
     M("C17-m2", "break", ["C17", "C15"], WMAR, "            h = hsig + 1;\n        } else {\n            h = reinterpret_cast<const Encoding<G1Affine, compressed>*>(encoded + 1);\n        }\n\n        for (int i = 0; i != this->l; i++) {", "            h = hsig + 1;\n        } else {\n            h = reinterpret_cast<const Encoding<G1Affine, compressed>*>(encoded + 1);\n        }\n\n        for (int i = 0; i <= this->l; i++) {", "params unmarshal reads one h too many"),
     M("C17-m3", "equiv", ["C17", "C15"], WMAR, "        for (int i = 0; i != this->l; i++) {\n            if (!this->b[i].unmarshal<compressed>(&b[i], checked)) {", "        for (int i = 0; i < this->l; i++) {\n            if (!this->b[i].unmarshal<compressed>(&b[i], checked)) {", "loop condition != written as <"),
 ]
+
+MUTANTS += [
+    M("C06-m13", "equiv", ["C06"], FAST, "            if (found_one) {\n                this->multiply2(*this);\n            }\n\n            /*\n             * Functionally", "            this->multiply2(*this);\n\n            /*\n             * Functionally", "endomorphism loop always doubles"),
+    M("C06-m14", "equiv", ["C06"], FAST, "            if (found_one) {\n                this->multiply2(*this);\n            }\n            for (unsigned int j = 0; j != 4; j++) {", "            this->multiply2(*this);\n            for (unsigned int j = 0; j != 4; j++) {", "frobenius loop always doubles"),
+]
